@@ -63,6 +63,7 @@ def check (input impl : String) : Verdict :=
                 if ans == "-" then some "unanswered-after-shutdown"
                 else if ans.contains '+' then some "answered-more-than-once"
                 else if ans == "Ew" then some "answered-with-another-documents-error"
+                else if ans == "F" then some "answer-lost-between-node-and-executor"
                 else if ans ≠ showAns a then (if a == .success then some "ok-document-answered-with-error" else some "failed-document-answered-with-success")
                 else if !starSends && snd ≠ toString n then
                   (if (snd.toNat?.getD 0) > n then some "sent-again-after-final-answer" else some "not-retried")
